@@ -549,7 +549,7 @@ class Module:
             fail(b[4], "_builtin_compare dispatch has changed shape")
         self.out.append(
             "(* %s  def _builtin_compare\n"
-            "   mode = check_mode((c, a, b), %r): Some 0 = order given, Some 1 = order unbound, None = CallModeError;\n"
+            "   mode = check_mode((c, a, b), [%s]): Some 0 = order given, Some 1 = order unbound, None = CallModeError;\n"
             "   mode 0 succeeds (once, binding nothing) iff c_token == c.functor and otherwise falls off the end\n"
             "   (None = failure); mode 1 returns the single answer c = Term(c_token). *)\n"
             "Definition _builtin_compare_mode (c a b : term) : option Z := %s.\n"
@@ -557,7 +557,8 @@ class Module:
             "Definition _builtin_compare_check (c a b : term) : bool :=\n"
             "  pyfun_eqb (FStr (_builtin_compare_token a b)) (functor c).\n"
             "Definition _builtin_compare_answer (a b : term) : term := TFun (_builtin_compare_token a b) [].\n"
-            % (self.span(fn), modes, self.mode_expr(modes, ["c", "a", "b"], s0), body))
+            % (self.span(fn), " ".join(repr(x) for x in modes).replace("*", "#") + "  (# stands for the any-mode star)",
+               self.mode_expr(modes, ["c", "a", "b"], s0), body))
 
     # ---- _builtin_sort
     def builtin_sort(self):
@@ -601,7 +602,8 @@ def translate(src, path="engine_builtin.py"):
             "Section Gen.\n"
             "Variable fr : Z -> text.   (* repr() of a float, see ModelPrelude *)\n\n"
             % (path, hashlib.sha1("\n".join(m.out).encode()).hexdigest()))
-    return head + "\n".join(m.out) + "\nEnd Gen.\n"
+    body = "\n".join(m.out)
+    return head + body + "\nEnd Gen.\n"
 
 
 def generate(repo):
